@@ -80,6 +80,8 @@ TOp ==
                  THEN /\ Has(e.n) /\ IsVec(e.res)
                       /\ Delete(e.n, VSub(e.res, pos[e.n].unc))
                  ELSE Fail("delete", e.n, e.s)
+            \* something was done to ANOTHER accumulator kept in the same store: nothing moves here
+            [] e.op = "nbr" -> UNCHANGED <<acc, total, pos, ideal, nUpd>> /\ Done("nbr", "", TRUE, <<>>, <<>>)
             [] OTHER -> FALSE
        /\ Matches(e.st)
 
